@@ -19,9 +19,13 @@ RULE = ("Concurrent histories on the harness-scheduled asyncio driver: 2-4 calle
 PROP = Prop(
     "C01", level="exploration", rule=RULE,
     layers=[Layer("histories", strategy=scenarios, execute=make_execute("C01"), budget={"quick": 3000, "thorough": 60000}),
-            Layer("h2-multi-connection", strategy=h2_multi_connection_scenarios, execute=make_execute("C01"), budget={"quick": 1200, "thorough": 30000})],
+            Layer("h2-multi-connection", strategy=h2_multi_connection_scenarios, execute=make_execute("C01"), budget={"quick": 1200, "thorough": 30000}),
+            __import__("vf.props.real", fromlist=["concurrent_layer"]).concurrent_layer("C01", {"quick": 320, "thorough": 12000})],
     assumptions=["the server always sends exactly one well-framed final response per complete request (malformed data is C15's domain)",
-                 "asyncio driver (schedules are sampled by a harness-owned scheduler and reproducible from the replay file); threads are covered by C08",
+                 "asyncio and trio drivers (schedules are sampled by a harness-owned scheduler and reproducible from the replay file); threads are covered by C08",
+                 "layer real-concurrent: 2-6 concurrent async callers (asyncio gather / trio nursery) through httpcore's own backends over loopback sockets with "
+                 "real TLS, fault-free; the schedule there is the runtime's and the kernel's (not controlled, not replayable as a schedule), the oracle (every "
+                 "response is the plan's answer to its own token, no request fails) holds for every schedule",
                  "runs in which a listed open C05 finding fired are judged as usual; their signature carries the cancellation site"],
     explanation="Schedule space sampled; every response is attributed to exactly one request by its token.",
 )
